@@ -17,12 +17,15 @@ from harness import core, paramalg as pa, runfamily as rf
 
 LEVEL = "model_checking"
 
-ACTIONS = ["Grow", "Build", "MCall", "MEq", "Clear", "MPickle", "Unpickle", "MCallCopy", "MClearCopy", "MSolve"]
+ACTIONS = ["Grow", "Twin", "Build", "MCall", "MEq", "Clear", "MPickle", "Unpickle", "MCallCopy", "MClearCopy", "MSolve"]
 
 
 def neighbours(tree, prev):
     """Other expressions the tree is compared with (environment choice; TLC decides what == must answer)."""
     out = []
+    if pa.kinds(tree) & pa.TWINS:
+        # an expression with twins is only compared with expressions that have the same leaf in every position
+        return [{"k": "N", "op": "sub" if tree["op"] != "sub" else "add", "l": tree["l"], "r": tree["r"]}]
     if tree["k"] == "N":
         out.append({"k": "N", "op": tree["op"], "l": tree["r"], "r": tree["l"]})      # operands swapped
         out.append({"k": "N", "op": "sub" if tree["op"] != "sub" else "add", "l": tree["l"], "r": tree["r"]})
@@ -66,7 +69,9 @@ def run(ctx):
                            (dict(pa.MECH, MClearByOperand=False), "ClearCacheTotal", 1),
                            (dict(pa.MECH, MClearByOperand=False), "SolverAcceptsComposite", 1),
                            (dict(pa.MECH, MPickleSlots=False), "PickleRoundTrip", 1),
-                           (dict(pa.MECH, MCacheKeyTime=False), "EvalIsPointwise", 1)):
+                           (dict(pa.MECH, MCacheKeyTime=False), "EvalIsPointwise", 1),
+                           (dict(pa.MECH, MReuseEqual=True), "EvalIsPointwise", 1),
+                           (dict(pa.MECH, MEqFlat=True), "EqIsStructural", 2)):
         sw = "/".join(k for k in mech if mech[k] != pa.MECH[k])
         cases.append((f"ParamAlg[{sw} as pinned/mutated, {inv}]", pa.model_cfg(lvl, 211, ctx.seed, mech, [inv]), inv))
     pa.design_canaries(ctx, cases)
@@ -77,8 +82,10 @@ def run(ctx):
     prev = None
     work = []
     for it in items:
-        work.append({"tree": it["tree"], "others": neighbours(it["tree"], prev)})
-        prev = it["tree"]
+        # == is asked about neighbours chosen here and about every other SHAPE of the same flat reading exported by TLC
+        work.append({"tree": it["tree"], "others": neighbours(it["tree"], prev) + list(it["eqs"])})
+        if not it["twin"]:
+            prev = it["tree"]       # (never the twinned form: a leaf and its twin are not compared)
     nchunk = 1 if len(work) < 1500 else 48
     size = (len(work) + nchunk - 1) // nchunk
     jobs = [("call", dict(module="harness.paramalg", func="exercise_many", args={"items": work[s:s + size]}))
@@ -86,7 +93,7 @@ def run(ctx):
     # expressions handed to the solver: the solver domain (3-D leaves, finite operators) and a few that the
     # solver must refuse (a 2-D leaf cannot take the z the solver passes)
     sdom = [it for it in items if it["solver"]]
-    neg = [it for it in items if "P2" in pa.kinds(it["tree"]) and it["level"] <= 2]
+    neg = [it for it in items if "P2" in pa.kinds(it["tree"]) and it["level"] <= 2 and not it["twin"]]
     rnd.shuffle(neg)
     nsolve = 60 if quick else 600
     keep = [it for it in sdom if it["level"] <= 1]
@@ -101,6 +108,11 @@ def run(ctx):
         ctx.note_case(tr["label"], nontrivial=it["level"] >= 1)
     for tr in straces:
         ctx.note_case(tr["label"], nontrivial=True)
+    ntwin = sum(1 for it in items if it["twin"])
+    nflat = sum(len(it["eqs"]) for it in items)
+    ctx.cov["expressions_enumerated"].update({"with_twins_under_equal_operands": ntwin, "same_flat_reading_pairs_compared": nflat})
+    if ntwin < 15 or nflat < 50:
+        raise core.MachineryFailure(f"C16: input dimensions vacuous: {ntwin} twinned expressions, {nflat} same-flat pairs")
     if not any(e["ev"] == "call" and e["fill"] for tr in traces for e in tr["ev"]):
         raise core.MachineryFailure("C16: no call ever filled an operand cache — ClearCacheTotal would be vacuous")
 
